@@ -8,28 +8,36 @@
     (rotating over the metric combinations BRANCH/LINE/CHECKED; dynamic constant seeding is always
     installed by the import hook): instrumenting succeeds, return value, exception type and
     side-effect markers are identical (PyMiniTrace.tla: InstrumentationSucceeds, BehaviourPreserved).
+(d) idioms: hand-written functions using Python constructs outside the PyMini grammar (comprehensions,
+    slices, with, match, super(), generators, closures, str methods, walrus, ...) are run uninstrumented
+    and instrumented under every metric combination, each in a forked child (an interpreter crash
+    is an observation, not a machinery failure); IdiomTrace.tla: InstrumentationSucceeds,
+    BehaviourPreserved.  The reference here is the interpreter, not a TLA+ semantics.
 Part (a) of the design (abstract stack machine over emitted snippets) is not built; stack
 neutrality is exercised indirectly: a non-neutral snippet makes import fail or changes behaviour.
 """
 
 from harness.core import Ctx
-from harness.props import C04, _pymini
+from harness.props import C04, _idioms, _pymini
 
 
 def run(ctx: Ctx) -> None:
     ctx.rule = ("(b) case = (comparison kind, value class a, value class b) as in C04; (c) case = (PyMini program, "
-                "decision vector, metric combination); non-trivial = distinct cases of (c) executing > 2 lines plus "
-                "cases of (b) where Python's operator does not raise")
+                "decision vector, metric combination); (d) case = (idiom function, metric combination), 8 inputs each; non-trivial = distinct cases of (c) executing > 2 lines plus "
+                "cases of (b) where Python's operator does not raise plus all cases of (d)")
     ctx.assumptions = ["side effects compared = markers appended to a list, return value, exception type",
                        "arbitrary C-extension behaviour and Python outside the PyMini grammar are out of scope; the "
                        "abstract stack machine of DESIGN 4.5 is not built"]
+    n_d = _idioms.run(ctx, "C01")  # first: the children are forked from a still small process
     C04.run_clauses(ctx, {"ObserveOnly", "OnlyRaisesIfOpRaises"}, "C01")
     n_b = ctx.evaluations
     _pymini.run_prop(ctx, "C01")
-    ctx.evaluations += n_b
+    ctx.evaluations += n_b + n_d
 
 
 def replay(ctx: Ctx, rec: dict) -> int:
+    if "idiom" in rec["behaviour"]:
+        return _idioms.replay(ctx, rec, "C01")
     if "prog" in rec["behaviour"]:
         return _pymini.replay_prop(ctx, rec, "C01")
     return C04.replay(ctx, rec)
